@@ -2,6 +2,7 @@ import CandidModel.Wire
 import CandidModel.Native
 import CandidModel.Proofs.NativeLocal
 import CandidModel.Proofs.NativeStep
+import CandidModel.Proofs.NativeSim
 /-
   C08 — Native decoding agrees with untyped decoding at the same Candid type.
   The model side of this property is the specification decoder at `T::ty()`; native decoding of every
@@ -170,5 +171,63 @@ theorem marked_situations_are_never_reached_under_flags (mk mk' : String → NR)
 /-- non-vacuity: `BTreeMap<String, Vec<Nat>>` against its Candid type, to depth 6 -/
 example : agree [] [] 6 (.map (.prim .text) (.seq .nat))
     (.vec (.record (.cons (.id 0) (.prim .text) (.cons (.id 1) (.vec (.prim .nat)) .nil)))) = true := by decide
+
+
+/-! ## native decoding against untyped decoding, for every wire type and every input -/
+
+/-- **native decoding at a Rust type agrees with untyped decoding at its Candid type** (mirrors `Native.lean` and
+`De.lean`).  For every environment, every Rust type `t` of the grammar without tuples, maps, 128-bit integers, arrays,
+bounded vectors and byte sequences read as `Vec<u8>` (`ByteBuf` is covered), every expected type `e` that is `t`'s
+Candid type in the strict sense of `agreeS`, **every wire type `w`** whose records and variants list their fields in
+ascending order of id (`srt`, `SortedEnv`: what the header parser guarantees of every type table), every input and
+decoder state with nothing metered, and every pair of depth budgets: unless one of the two runs is starved of its budget (`err limit`), the two
+runs end the same way — both return the same value and leave the same input and the same subtype memo, or both fail
+with a subtype error (so an enclosing option backtracks in both), or both fail with an error, or both hit a panic site
+of the shared subtype checker.  (`SimN` spells this out; the native run is in a state with `is_untyped = false`, the
+untyped run in the same state with the flag set.) -/
+theorem native_decoding_agrees_with_untyped_decoding (mk : String → NR) (env : Env) (tl : Nat) (renv : REnv) (k m : Nat)
+    (t : RTy) (w e : Ty) (s : St) (hse : SortedEnv env) (hsw : srt w = true)
+    (ha : agreeS env renv k t e = true) (hs : s.untyped = false) (hu : Unmetered s) :
+    SimN Flags.clear (deN mk env tl renv k t Flags.clear w e s) (deAny env .idl m w e (up s)) :=
+  deN_sim mk env tl renv hse k m t Flags.clear w e s ha (FlagsFit.clear w e) ⟨hs, hu⟩ hsw
+
+/-- read off: what the native run accepts, the untyped run accepts with the same value and the same remaining input -/
+theorem native_acceptance_is_untyped_acceptance (mk : String → NR) (env : Env) (tl : Nat) (renv : REnv) (k m : Nat)
+    (t : RTy) (w e : Ty) (s : St) (hse : SortedEnv env) (hsw : srt w = true)
+    (ha : agreeS env renv k t e = true) (hs : s.untyped = false) (hu : Unmetered s)
+    (v : Val) (fl' : Flags) (s1 : St) (hn : deN mk env tl renv k t Flags.clear w e s = .ok (v, fl') s1) :
+    deAny env .idl m w e (up s) = .err .limit ∨ deAny env .idl m w e (up s) = .ok v (up s1) := by
+  rcases native_decoding_agrees_with_untyped_decoding mk env tl renv k m t w e s hse hsw ha hs hu with h | h | h
+  · rw [hn] at h; simp at h
+  · exact Or.inl h
+  · rw [hn] at h
+    cases hy : deAny env .idl m w e (up s) with
+    | ok v' s2 => rw [hy] at h; exact Or.inr (by rw [← h.1, h.2.1])
+    | sub d q => rw [hy] at h; exact absurd h (by simp)
+    | err x => rw [hy] at h; exact absurd h (by simp)
+    | panic x => rw [hy] at h; exact absurd h (by simp)
+
+/-- … and conversely -/
+theorem untyped_acceptance_is_native_acceptance (mk : String → NR) (env : Env) (tl : Nat) (renv : REnv) (k m : Nat)
+    (t : RTy) (w e : Ty) (s : St) (hse : SortedEnv env) (hsw : srt w = true)
+    (ha : agreeS env renv k t e = true) (hs : s.untyped = false) (hu : Unmetered s)
+    (v : Val) (s2 : St) (hn : deAny env .idl m w e (up s) = .ok v s2) :
+    deN mk env tl renv k t Flags.clear w e s = .err .limit ∨
+      ∃ fl' s1, deN mk env tl renv k t Flags.clear w e s = .ok (v, fl') s1 ∧ s2 = up s1 := by
+  rcases native_decoding_agrees_with_untyped_decoding mk env tl renv k m t w e s hse hsw ha hs hu with h | h | h
+  · exact Or.inl h
+  · rw [hn] at h; simp at h
+  · rw [hn] at h
+    cases hx : deN mk env tl renv k t Flags.clear w e s with
+    | ok p s1 =>
+      obtain ⟨v', f'⟩ := p
+      rw [hx] at h
+      exact Or.inr ⟨f', s1, by rw [h.1], h.2.1⟩
+    | sub d q => rw [hx] at h; exact absurd h (by simp)
+    | err x => rw [hx] at h; exact absurd h (by simp)
+    | panic x => rw [hx] at h; exact absurd h (by simp)
+
+/-- non-vacuity: `Vec<Option<Nat>>` against its Candid type, strictly, to depth 5 -/
+example : agreeS [] [] 5 (.seq (.opt .nat)) (.vec (.opt (.prim .nat))) = true := by decide
 
 end Candid.Props.C08
